@@ -126,6 +126,7 @@ class Stats:
         self.counters = {}
         self.samples = []
         self.inconclusive = 0
+        self.inconclusive_samples = []
         self.excluded = 0
         self.times = []
 
@@ -157,6 +158,7 @@ class Stats:
             if len(self.samples) < 3:
                 self.samples.append(s)
         self.inconclusive += o.inconclusive
+        self.inconclusive_samples = (self.inconclusive_samples + o.inconclusive_samples)[:2]
         self.excluded += o.excluded
         self.times += o.times[:200]
 
@@ -237,8 +239,12 @@ def _search_worker(args):
         t0 = time.perf_counter()
         try:
             res = execute(mod, case, ctx, case_limit(stats))
-        except Inconclusive:
+        except Inconclusive as e:
             stats.inconclusive += 1
+            k = f'inconclusive:{e}'
+            stats.classes[k] = stats.classes.get(k, 0) + 1
+            if len(stats.inconclusive_samples) < 2:
+                stats.inconclusive_samples.append(case)
             return
         except Violation as v:
             fail['case'] = case
@@ -345,6 +351,7 @@ def default_candidates(case):
 def minimise(mod, case, oracle, ctx, budget_s=40.0, max_evals=1500):
     """Greedy: keep a candidate when the same oracle still fires."""
     gen = getattr(mod, 'candidates', None) or default_candidates
+    valid = getattr(mod, 'valid', None)
     t_end = time.time() + budget_s
     evals = 0
     best = case
@@ -357,6 +364,12 @@ def minimise(mod, case, oracle, ctx, budget_s=40.0, max_evals=1500):
                 break
             if len(canon(cand)) >= len(canon(best)):
                 continue
+            if valid is not None:
+                try:
+                    if not valid(cand):
+                        continue
+                except Exception:
+                    continue
             evals += 1
             try:
                 execute(mod, cand, ctx, 20.0)
@@ -408,6 +421,7 @@ def write_evidence(mod, tier, seed, stats, wall, violations, known_seen, phases_
         'classes': dict(sorted(stats.classes.items())),
         'counters': dict(sorted(stats.counters.items())),
         'inconclusive': stats.inconclusive,
+        'inconclusive_samples': json.loads(canon(stats.inconclusive_samples)),
         'excluded_by_known_findings': stats.excluded,
         'phases': phases_info,
         'known_findings_seen': known_seen,
@@ -453,8 +467,28 @@ def replay_file(mod, path, tier='quick'):
     return rec, execute(mod, rec['case'], ctx, 120.0)
 
 
+class _Sink:
+    def write(self, *a):
+        return 0
+
+    def flush(self):
+        pass
+
+
+_REAL_OUT = sys.stdout
+
+
+def print(*a, **k):    # noqa: A001  (the runner's own lines go to the real stdout, everything else is swallowed)
+    k.setdefault('file', _REAL_OUT)
+    import builtins
+    builtins.print(*a, **k)
+    _REAL_OUT.flush()
+
+
 def run_property(modname, tier, seed, replay=None, workers=None):
     t0 = time.time()
+    # the library prints from several places (also from __del__ at garbage-collection time): keep stdout clean
+    sys.stdout = _Sink()
     mod = load(modname)
     import simprocesd
     if not os.path.abspath(simprocesd.__file__).startswith(os.path.abspath(REPO) + os.sep):
